@@ -154,12 +154,12 @@ def c13_run(runner, stage):
                     if rc1 != 0 and (target, sig) not in seen_sig:
                         seen_sig[(target, sig)] = 1
                         found.append((target, f, sig, out1[-3000:]))
-        _log("C13: corpus replay done, %d failing; starting %d x %d s" % (len(found), t["procs"], t["secs"]))
         # ---- (c) the campaign
-        nproc, secs = t["procs"], t["secs"]
+        nproc, secs = t["procs"], int(_os.environ.get("VERIF_C13_SECS", t["secs"]))   # override: smoke tests of a tier
         n1 = max(2, (nproc // 3) & ~1)      # quick: 4 x T1 + 8 x T2; thorough: 4 x T1 + 12 x T2
         plan = [("fuzz_readers", i) for i in range(n1)] + [("fuzz_soplex", i) for i in range(nproc - n1)]
         deadline = _time.time() + secs
+        _log("C13: corpus replay done, %d failing; starting %d x %d s" % (len(found), nproc, secs))
 
         def campaign(job):
             target, i = job
@@ -347,7 +347,7 @@ PROPS["C13"] = dict(
                  "the post-read solves run with SIMPLIFIER off, ITERLIMIT 50, TIMELIMIT 2 (solver defects are not this property's "
                  "business; UBSan's enum check stops on SPxMainSM::unsimplify copying uninitialised VarStatus slots)",
                  "inputs matching an excluded known finding are completed/skipped by the decoder and counted (classes excluded_known.*)"],
-    min_nontrivial=dict(quick=300, thorough=3000),
+    min_nontrivial=dict(quick=1500, thorough=6000),
     stages=[
         dict(name="soplex", kind="custom", replayable=True, target="fuzz_soplex", flavour="fuzz", leaks=True, replay_timeout=120,
              env=_ENV, fn=c13_run, quick=dict(procs=12, secs=45), thorough=dict(procs=16, secs=1200, valgrind=500)),
